@@ -164,4 +164,8 @@ def run(tier):
     from harness import ensemble, hmcstep
     ensemble.run_part(ck, tier)
     hmcstep.run_part(ck, tier)
+    # each chain run under parallel tempering: a point installed by an exchange must carry the probability the next
+    # accept/reject decision of the receiving chain needs (trace-validated real runs with forced exchanges)
+    from harness import c03
+    c03.pt_part(ck, tier)
     return ck.finish()
